@@ -413,6 +413,72 @@ def run(ctx):
                     else:
                         ok, why_ = False, "look-ahead does not exclude the remainder %r of %r" % (rest, l2)
                 ctx.inst("C10.R3", "postfix=%s/infix=%s" % (p, n2), ok, why_, "blots-core/src/grammar.pest")
+    # ... and the look-ahead refuses no more than that: written without a space, `x<postfix><infix>y` must still read as postfix then infix,
+    # unless the joined text starts with another infix literal whose remainder can begin an operand
+    def la_match(e, text, depth=0):
+        """lengths the expression can consume at the start of `text` (literal-only PEG fragments); None if not evaluable"""
+        k = e["k"]
+        if depth > 12:
+            return None
+        if k == "str":
+            return {len(e["v"])} if text.startswith(e["v"]) else set()
+        if k == "seq":
+            a = la_match(e["a"], text, depth + 1)
+            if a is None:
+                return None
+            out = set()
+            for n_ in a:
+                b = la_match(e["b"], text[n_:], depth + 1)
+                if b is None:
+                    return None
+                out |= {n_ + m_ for m_ in b}
+            return out
+        if k == "choice":
+            a = la_match(e["a"], text, depth + 1)
+            if a is None:
+                return None
+            if a:
+                return a   # ordered choice
+            return la_match(e["b"], text, depth + 1)
+        if k in ("neg", "neg_pred"):
+            a = la_match(e["e"], text, depth + 1)
+            return None if a is None else (set() if a else {0})
+        if k in ("pos", "pos_pred"):
+            a = la_match(e["e"], text, depth + 1)
+            return None if a is None else ({0} if a else set())
+        if k == "opt":
+            a = la_match(e["e"], text, depth + 1)
+            return None if a is None else (a | {0})
+        return None
+    for p in G.alt_names("postfix_op"):
+        s = G.seq(G.expr(p))
+        if s[0]["k"] != "str" or len(s) < 2:
+            continue
+        pl = s[0]["v"]
+        tail_e = s[1]
+        for x in s[2:]:
+            tail_e = {"k": "seq", "a": tail_e, "b": x}
+        if not all(x["k"] in ("neg", "pos", "neg_pred", "pos_pred") for x in s[1:]):
+            continue   # something real must follow the literal (an index, a field name): not a bare token with a look-ahead
+        for (n2, l2) in inf:
+            m_ = la_match(tail_e, l2 + "x")
+            if m_ is None:
+                ctx.inst("C10.R3", "postfix=%s~infix=%s#unspaced" % (p, n2), None, "look-ahead of %s not evaluable on %r" % (p, l2), "blots-core/src/grammar.pest")
+                continue
+            if m_:
+                ctx.inst("C10.R3", "postfix=%s~infix=%s#unspaced" % (p, n2), True, "`x%s%sy` reads %s then %s" % (pl, l2, p, n2), "blots-core/src/grammar.pest")
+                continue
+            # the postfix is refused before this infix: fine only if the joined text is another infix operator followed by an operand
+            joined = pl + l2
+            alt_ok = False
+            for (n3, l3) in inf:
+                if joined.startswith(l3):
+                    rest_ = joined[len(l3):]
+                    if rest_ == "" or rest_[0] in follow_first:
+                        alt_ok = True
+                    break   # ordered choice: the first literal that matches is taken
+            ctx.inst("C10.R3", "postfix=%s~infix=%s#unspaced" % (p, n2), alt_ok,
+                     "the look-ahead of %s refuses %r; `x%sy` then %s" % (p, l2, joined, "reads as another operator" if alt_ok else "is a parse error although `x%s %s y` is a program" % (pl, l2)), "blots-core/src/grammar.pest")
     # prefix literals vs infix: prefix_usage is tried only at operand start, no shadowing possible; recorded
     # ---------------- R4 keyword guards
     ctx.rule("C10.R4", "every word-like literal that is tried where an identifier is also admissible is followed by !identifier_rest or mandatory whitespace", floor=8)
